@@ -814,7 +814,8 @@ def run(ctx):
     return {"level": LEVEL, "coverage": cov, "violations": acc.violation_list(), "errors": acc.errors,
             "assumptions": ["a slice is a separate wrapper: it must show the same raw numbers as the data it views, its unit label is not "
                             "required to follow a unit-changing update made through another wrapper",
-                            "1-d operands (0-d components are copied by value when a Vector is rebuilt)",
+                            "a Vector updated in place need not remain the same object, but every holder of it must show the updated values and unit",
+                            "1-d operands in the heap exploration (0-d operands are the subject of the scalar block)",
                             "M2 unit table for the value of x op y"]}
 
 
